@@ -469,4 +469,98 @@ theorem coop_atomic (opens closes : A → Bool) (sks : Nat → Sk) (hscan : ∀ 
   atomic_sections opens closes locals
     (fun j => by obtain ⟨o, ho⟩ := hrun j; exact sectionsAtomic_sound opens closes (sks j) (hscan j) _ o ho) g hs
 
+/-! ### mutual exclusion from the lock shape -/
+
+theorem lock_mutex_aux (acq rel inner : A → Bool) : ∀ (rem : Nat → List Ev) (g : List (Nat × Ev)), Inter rem g →
+    ∀ (st : Nat → Nat) (h : Option Nat),
+      (∀ j, (runMon (heldMon acq rel inner) (st j) (rem j)).isSome = true) → (∀ j, st j = 1 → h = some j) →
+      LockRespecting acq rel h g → InnerByHolder acq rel inner h g := by
+  intro rem g hi
+  induction hi with
+  | done => intro _ _ _ _ _; trivial
+  | @step rem i e rest g hrem _ ih =>
+    intro st h hacc hinv hlock
+    have hi' := hacc i
+    rw [hrem] at hi'
+    cases e with
+    | aw n =>
+      simp only [LockRespecting] at hlock
+      simp only [InnerByHolder]
+      refine ih st h ?_ hinv hlock
+      intro j
+      by_cases hj : j = i
+      · subst hj; simpa [upd, runMon, heldMon] using hi'
+      · simpa [upd, hj] using hacc j
+    | act a =>
+      simp only [LockRespecting] at hlock
+      simp only [InnerByHolder]
+      cases ha : acq a with
+      | true =>
+        simp only [ha, if_true] at hlock ⊢
+        obtain ⟨hnone, hlock'⟩ := hlock
+        refine ih (upd st i 1) (some i) ?_ ?_ hlock'
+        · intro j
+          by_cases hj : j = i
+          · subst hj; simpa [upd, runMon, heldMon, ha] using hi'
+          · simpa [upd, hj] using hacc j
+        · intro j hj
+          by_cases hji : j = i
+          · rw [hji]
+          · have := hinv j (by simpa [upd, hji] using hj)
+            rw [hnone] at this; cases this
+      | false =>
+        cases hr : rel a with
+        | true =>
+          simp only [ha, hr, if_true, Bool.false_eq_true, if_false] at hlock ⊢
+          refine ih (upd st i 0) _ ?_ ?_ hlock
+          · intro j
+            by_cases hj : j = i
+            · subst hj; simpa [upd, runMon, heldMon, ha, hr] using hi'
+            · simpa [upd, hj] using hacc j
+          · intro j hj
+            by_cases hji : j = i
+            · subst hji; simp [upd] at hj
+            · have hh := hinv j (by simpa [upd, hji] using hj)
+              have hne : h ≠ some i := by
+                rw [hh]; intro hc; exact hji (Option.some.inj hc)
+              simp only [hne, if_false]; exact hh
+        | false =>
+          simp only [ha, hr, Bool.false_eq_true, if_false] at hlock ⊢
+          cases hin : inner a with
+          | true =>
+            -- the local monitor accepted an inner action: this task holds
+            have hsti : st i = 1 := by
+              simp only [runMon, heldMon, ha, hr, hin, Bool.false_eq_true, if_false, if_true] at hi'
+              by_cases h1 : (st i == 1) = true
+              · simpa using h1
+              · simp [h1] at hi'
+            refine ⟨fun _ => hinv i hsti, ih st h ?_ hinv hlock⟩
+            intro j
+            by_cases hj : j = i
+            · subst hj
+              have h1 : (st j == 1) = true := by simp [hsti]
+              simpa [upd, runMon, heldMon, ha, hr, hin, h1] using hi'
+            · simpa [upd, hj] using hacc j
+          | false =>
+            refine ⟨fun hc => (by cases hc), ih st h ?_ hinv hlock⟩
+            intro j
+            by_cases hj : j = i
+            · subst hj; simpa [upd, runMon, heldMon, ha, hr, hin] using hi'
+            · simpa [upd, hj] using hacc j
+
+/-- **mutual exclusion from the lock shape**: tasks whose local traces emit `inner` actions only between their own `acq` and `rel`
+(the `heldMon` monitor accepts them), interleaved in ANY way that respects the lock (an `acq` only while nobody holds it): every
+`inner` action in the global trace is emitted by the task that holds the lock at that moment -/
+theorem lock_mutex (acq rel inner : A → Bool) (locals : Nat → List Ev)
+    (hloc : ∀ j, (runMon (heldMon acq rel inner) 0 (locals j)).isSome = true) (g : List (Nat × Ev)) (hi : Inter locals g)
+    (hl : LockRespecting acq rel none g) : InnerByHolder acq rel inner none g :=
+  lock_mutex_aux acq rel inner locals g hi (fun _ => 0) none hloc (by intro j h; cases h) hl
+
+/-- … in particular when every task runs a skeleton that passes `alwaysHeld` -/
+theorem lock_mutex_of_skeletons (acq rel inner : A → Bool) (sks : Nat → Sk) (hs : ∀ j, alwaysHeld acq rel inner (sks j) = true)
+    (locals : Nat → List Ev) (hrun : ∀ j, ∃ o, Run (sks j) (locals j) o) (g : List (Nat × Ev)) (hi : Inter locals g)
+    (hl : LockRespecting acq rel none g) : InnerByHolder acq rel inner none g :=
+  lock_mutex acq rel inner locals
+    (fun j => by obtain ⟨o, ho⟩ := hrun j; exact scan_accepts _ 4 (sks j) 0 (hs j) _ o ho) g hi hl
+
 end GeckoModel.Coop
